@@ -197,6 +197,9 @@ func (x *runner) report(c *Case, fd *finding) {
 	} else {
 		coarse += "|" + describeType(c.Fields)
 	}
+	if causeKind(fd.Kind) {
+		coarse = fd.Kind // a cause key of its own: classified once per shard
+	}
 	x.r.Count("findings_raw", 1)
 	if x.seenKey[coarse] {
 		return
